@@ -100,6 +100,11 @@ class FortranDifferential(BoundedCheck):
             yield {'script': G.render_script(p), 'seed': rnd.randrange(10 ** 6), 'kind': 'safe'}
         for s in ('Y = X / 2 + 1 / 2', 'Y = X * 2 ** -1', 'Y = X + 0.1', 'Y = max(X, 2)', 'Y = 0.5 * Y + X'):
             yield {'script': s, 'seed': 5, 'kind': 'literal'}
+        # declarations of every size (the row-number lists are wrapped over continuation lines): text only, no compilation, except a few sizes
+        for nvars in range(1, 131):
+            terms = ' + '.join([f'X{i}' for i in range(nvars)] + [f'{{p{i}}}' for i in range(nvars // 3)])
+            eqs = '\n'.join([f'Y = {terms}'] + [f'Z{i} = Y * {i + 1}.0' for i in range(nvars // 2)])
+            yield {'script': eqs, 'seed': nvars, 'kind': 'declarations' if nvars not in (37, 64, 101) else 'declarations+compile'}
 
     def check(self, case, res: BoundedResult):
         import fsic
@@ -133,6 +138,8 @@ class FortranDifferential(BoundedCheck):
             bad('lag/lead lengths of the Fortran module equal those of the Python class', 'c07.lags-leads', (Py.LAGS, Py.LEADS), lm.groups() if lm else None, 'lags_leads')
         if '&\n' in src.split('subroutine evaluate')[1].split('end subroutine evaluate')[0]:
             res.cover('continuation-lines')
+        if case['kind'] == 'declarations':
+            return out
         try:
             eng = compile_source(src)
         except CompileError as ex:
@@ -204,6 +211,18 @@ class FortranDifferential(BoundedCheck):
             if off and not (Py.LAGS <= (t % n) + off <= n - 1 - Py.LEADS) and 0 <= (t % n) + off < n:
                 pass
             compare('solve_t', lambda m, t=t: m.solve_t(t, min_iter=mi, max_iter=ma, tol=tol, offset=off, failures=fl, errors=er), (t, mi, ma, tol, off, fl, er))
+        # a period that is re-solved from a solved neighbour (offset) although its own values are stale: seeding happens before the first comparison
+        def reseed(m):
+            for nm in m.names:
+                if nm not in m.ENDOGENOUS:
+                    m[nm] = float(m[nm][0])                       # constant exogenous data: neighbouring periods have the same solution
+            m.solve(max_iter=200, failures='ignore', errors='ignore')
+            for nm in m.ENDOGENOUS:
+                m[nm][feas[1]:] = m[nm][feas[1]:] + 7.0          # stale values in the periods to be solved again
+            return m.solve(start=m.span[feas[1]], end=m.span[feas[-1]], offset=-1, max_iter=200, failures='ignore', errors='ignore')
+        if len(feas) >= 2 and Py.LEADS == 0:
+            res.cover('solve')
+            compare('solve', reseed, 'offset-after-solved-neighbour', need_finite=False)
         for ma, fl in ((60, 'raise'), (2, 'ignore'), (2, 'raise')):
             res.cover('solve')
             compare('solve', lambda m: m.solve(max_iter=ma, failures=fl), (ma, fl))
